@@ -41,6 +41,7 @@ type goxScenario struct {
 	SQL      string            `json:"sql"`
 	CPU      int               `json:"cpu"`
 	Thorough bool              `json:"-"`
+	Loop     bool              `json:"loop_points,omitempty"` // quick tier: every loop iteration in lib/query is a scheduling point too (thorough: all scenarios)
 }
 
 func csvTable(header string, n int, row func(i int) string) string {
@@ -80,22 +81,23 @@ func goxScenarios() []goxScenario {
 			return fmt.Sprintf("%d,k%d", i+1, i%3)
 		})}
 	sc := []goxScenario{
-		{Name: "filter", Files: files, SQL: "SELECT a FROM t WHERE b > 1", CPU: 3},
-		{Name: "select-list", Files: files, SQL: "SELECT a, b * 2 + 1, g || '!' FROM t", CPU: 3},
+		{Name: "filter", Loop: true, Files: files, SQL: "SELECT a FROM t WHERE b > 1", CPU: 3},
+		{Name: "select-list", Loop: true, Files: files, SQL: "SELECT a, b * 2 + 1, g || '!' FROM t", CPU: 3},
 		{Name: "group-by", Files: files, SQL: "SELECT g, COUNT(*), SUM(b) FROM t GROUP BY g", CPU: 3},
-		{Name: "group-by-2-keys", Files: files, SQL: "SELECT g, b, COUNT(*) FROM t GROUP BY g, b", CPU: 3},
+		{Name: "group-by-2-keys", Loop: true, Files: files, SQL: "SELECT g, b, COUNT(*) FROM t GROUP BY g, b", CPU: 3},
 		{Name: "group-by-2workers", Files: files, SQL: "SELECT g, COUNT(*) FROM t GROUP BY g", CPU: 2},
-		{Name: "distinct", Files: files, SQL: "SELECT DISTINCT g FROM t", CPU: 3},
-		{Name: "order-by", Files: files, SQL: "SELECT a, g FROM t ORDER BY g, a DESC", CPU: 3},
+		{Name: "distinct", Loop: true, Files: files, SQL: "SELECT DISTINCT g FROM t", CPU: 3},
+		{Name: "distinct-2-columns", Loop: true, Files: files, SQL: "SELECT DISTINCT g, b FROM t; SELECT g, b FROM t EXCEPT SELECT g, c FROM u;", CPU: 3},
+		{Name: "order-by", Loop: true, Files: files, SQL: "SELECT a, g FROM t ORDER BY g, a DESC", CPU: 3},
 		{Name: "having-aggregate", Files: files, SQL: "SELECT g, LISTAGG(a, ',') FROM t GROUP BY g HAVING COUNT(*) > 0 ORDER BY g", CPU: 3},
 		{Name: "analytic", Files: files, SQL: "SELECT a, RANK() OVER (PARTITION BY g ORDER BY a), COUNT(a) OVER (PARTITION BY g), SUM(b) OVER (ORDER BY a) FROM t", CPU: 3},
 		{Name: "user-aggregate-with-row-argument-over-partitions", Files: files,
 			SQL: "DECLARE wsum AGGREGATE (cur, @w, @c) AS BEGIN VAR @s := @c; VAR @v; WHILE @v IN cur DO @s := @s + @v * @w; END WHILE; RETURN @s; END; SELECT a, wsum(b, a, a * 100) OVER (PARTITION BY g) FROM t; SELECT g, wsum(b, 2, 0) FROM t GROUP BY g;", CPU: 3},
 		{Name: "user-function-in-where-and-select", Files: files,
 			SQL: "DECLARE dbl FUNCTION (@x) AS BEGIN VAR @y := @x * 2; RETURN @y; END; SELECT a, dbl(b) FROM t WHERE dbl(a) > 4;", CPU: 3},
-		{Name: "union", Files: files, SQL: "SELECT g FROM t UNION SELECT g FROM u", CPU: 3},
+		{Name: "union", Loop: true, Files: files, SQL: "SELECT g FROM t UNION SELECT g FROM u", CPU: 3},
 		{Name: "except-intersect", Files: files, SQL: "SELECT g FROM t EXCEPT SELECT g FROM u; SELECT g FROM t INTERSECT SELECT g FROM u;", CPU: 3},
-		{Name: "subquery-in", Files: files, SQL: "SELECT a FROM t WHERE g IN (SELECT g FROM u)", CPU: 3},
+		{Name: "subquery-in", Loop: true, Files: files, SQL: "SELECT a FROM t WHERE g IN (SELECT g FROM u)", CPU: 3},
 		{Name: "error-at-one-record", Files: files, SQL: "SELECT a, 10 / (a - 4) FROM t", CPU: 3},
 		{Name: "inner-join", Files: jf, SQL: "SELECT tl.a, ur.a FROM tl JOIN ur ON tl.g = ur.g", CPU: 2},
 		{Name: "inner-join-3-workers-middle-chunk-unmatched", Files: map[string]string{
@@ -118,7 +120,7 @@ func goxScenarios() []goxScenario {
 		{Name: "cross-join", Files: jf, SQL: "SELECT tl.a, ur.a FROM tl CROSS JOIN ur WHERE tl.a + ur.a = 11", CPU: 2, Thorough: true},
 		{Name: "natural-join", Files: files, SQL: "SELECT * FROM t NATURAL JOIN u", CPU: 3},
 		{Name: "insert-select", Files: files, SQL: "INSERT INTO t SELECT a + 10, g, c FROM u; SELECT * FROM t;", CPU: 3},
-		{Name: "update", Files: files, SQL: "UPDATE t SET b = b + 100 WHERE g IN ('x', 'y'); SELECT * FROM t; COMMIT;", CPU: 3},
+		{Name: "update", Loop: true, Files: files, SQL: "UPDATE t SET b = b + 100 WHERE g IN ('x', 'y'); SELECT * FROM t; COMMIT;", CPU: 3},
 		{Name: "update-2-tables", Files: files, SQL: "UPDATE t, u SET t.b = u.c, u.c = t.b FROM t JOIN u ON t.a = u.a; SELECT * FROM t; SELECT * FROM u; COMMIT;", CPU: 3},
 		{Name: "delete", Files: files, SQL: "DELETE FROM t WHERE b < 2; SELECT * FROM t; COMMIT;", CPU: 3},
 		{Name: "replace", Files: files, SQL: "REPLACE INTO t (a, g, b) USING (a) VALUES (2, 'r', 0), (30, 'n1', 1), (31, 'n2', 2), (32, 'n3', 3); SELECT * FROM t; COMMIT;", CPU: 3},
@@ -173,6 +175,7 @@ type c12Payload struct {
 	Choices  []int       `json:"choices"`
 	Want     string      `json:"single_worker_outcome"`
 	Got      string      `json:"outcome"`
+	Loop     bool        `json:"loop_points_on"` // whether loop iterations were scheduling points in the recorded execution
 }
 
 func c12Signature(name, want, got string) string {
@@ -206,7 +209,7 @@ func sameMultiset(a, b string) bool {
 // pass, then a second pass with the coarser points (locks, wait groups, record boundaries) and two decisions.
 func c12Run(c *core.Ctx) {
 	gox.EvalPoints = true
-	defer func() { gox.EvalPoints = false }()
+	defer func() { gox.EvalPoints, gox.LoopPoints = false, false }()
 	c12Pass(c, 1, 1, 1, "")
 	if c.Thorough() {
 		gox.EvalPoints = false
@@ -232,6 +235,7 @@ func c12Pass(c *core.Ctx, maxP, maxD, maxS int, tag string) {
 		if only := os.Getenv("VERIF_C12_ONLY"); only != "" && only != sc.Name {
 			continue
 		}
+		gox.LoopPoints = gox.EvalPoints && (sc.Loop || c.Thorough())
 		want, _ := goxRunOnce(dir, sc, 1, false, nil)
 		outcomes := map[string]int{}
 		e := &gox.Explorer{MaxPreempt: maxP, MaxMapDev: maxD, MaxSwitch: maxS, Stop: c.Expired}
@@ -254,12 +258,15 @@ func c12Pass(c *core.Ctx, maxP, maxD, maxS int, tag string) {
 			if ex.Tasks > 1 || len(ex.MapSites) > 0 {
 				nontrivial++
 			}
+			if ex.Overflow {
+				c.Incomplete("scenario " + sc.Name + ": an execution had more choice points than the explorer records; the points beyond are not explored")
+			}
 			if ex.Deadlock {
-				c.Violate(sc.Name+":deadlock", fmt.Sprintf("scenario %s: every live task is blocked under choices %v", sc.Name, choices), c12Payload{Scenario: sc, Choices: choices})
+				c.Violate(sc.Name+":deadlock", fmt.Sprintf("scenario %s: every live task is blocked under choices %v", sc.Name, choices), c12Payload{Scenario: sc, Choices: choices, Loop: gox.LoopPoints})
 			}
 			if got != want {
 				c.Violate(c12Signature(sc.Name, want, got), fmt.Sprintf("scenario %s %q with %d workers, choices %v:\n--- single worker:\n%s--- this schedule / map order:\n%s", sc.Name, sc.SQL, sc.CPU, choices, want, got),
-					c12Payload{Scenario: sc, Choices: choices, Want: want, Got: got})
+					c12Payload{Scenario: sc, Choices: choices, Want: want, Got: got, Loop: gox.LoopPoints})
 			}
 		})
 		c.EvalN(int64(e.Executions), nontrivial)
@@ -304,8 +311,8 @@ func c12Replay(c *core.Ctx, payload json.RawMessage) {
 		fmt.Println(err)
 		return
 	}
-	gox.EvalPoints = true
-	defer func() { gox.EvalPoints = false }()
+	gox.EvalPoints, gox.LoopPoints = true, p.Loop
+	defer func() { gox.EvalPoints, gox.LoopPoints = false, false }()
 	prev := query.GetGoroutineManager().MinimumRequiredPerCore
 	query.GetGoroutineManager().MinimumRequiredPerCore = 2
 	defer func() { query.GetGoroutineManager().MinimumRequiredPerCore = prev }()
